@@ -95,6 +95,11 @@ def generate(ctx):
     for i in range(n):
         yield {"k": "impl", "s": subseed("c02", ctx.seed, "implmix", ctx.shard, i)}
         yield {"k": "ref", "variant": VARIANTS[i % len(VARIANTS)]["name"], "s": subseed("c02", ctx.seed, "refmix", ctx.shard, i)}
+    # identifier-coincident types interleaved (both directions); comparison ignore-list active while writing
+    for i in range(ctx.scale(12, 80)):
+        yield {"k": "impl", "co": 1, "s": subseed("c02", ctx.seed, "implco", ctx.shard, i)}
+        yield {"k": "ref", "co": 1, "variant": ["minimal", "nonminimal", "extra-reserved-1", "no-version"][i % 4], "s": subseed("c02", ctx.seed, "refco", ctx.shard, i)}
+        yield {"k": "impl", "ignore": [["_generated"], ["<all>"]][i % 2], "s": subseed("c02", ctx.seed, "implcfg", ctx.shard, i)}
     for i, ent in enumerate(ctx.state["golden"]):
         if ctx.mine(i):
             yield {"k": "golden", "id": ent["id"]}
@@ -178,12 +183,25 @@ def execute(ctx, case):
         # value classes owned by the C01/C02 known findings cannot be expressed by the reference encoder either: keep
         # their field types out of 'ref' sequences unless the type itself is the focus of the case
         types = [t for t in gen.ALL_FIELD_TYPES if not t.startswith(KNOWN_CLASS_TYPES) or (focus and t == focus[0])]
-    records = workload.build_sequence(case["s"], thorough=not ctx.quick, focus=focus, small=small, n_records=(2 if small else None), types=types)
+    if case.get("co"):
+        records = workload.coincident_sequence(case["s"])
+    else:
+        records = workload.build_sequence(case["s"], thorough=not ctx.quick, focus=focus, small=small, n_records=(2 if small else None), types=types)
     written = [observe.obs(r) for r in records]
 
     if k == "impl":
         tee = faultio.TeeFile()
         w = RecordStreamWriter(tee)
+        restore = None
+        if case.get("ignore"):
+            import flow.record.base as base
+
+            names = set(case["ignore"])
+            if "<all>" in names:
+                names = {n for r in records for n in getattr(r, "__slots__", ())}
+            restore = set(base.IGNORE_FIELDS_FOR_COMPARISON)
+            base.set_ignored_fields_for_comparison(names)
+            ctx.event("impl_cases_with_comparison_ignore_list_active")
         try:
             for r in records:
                 w.write(r)
@@ -193,6 +211,8 @@ def execute(ctx, case):
             return
         finally:
             w.fp = None
+            if restore is not None:
+                base.set_ignored_fields_for_comparison(restore)
         data = tee.getvalue()
         try:
             dec = refcodec.decode_stream(data)
@@ -209,6 +229,8 @@ def execute(ctx, case):
         ctx.event("write_calls", len(tee.calls))
         if focus:
             ctx.cell("impl", focus[0], focus[1])
+        if case.get("co"):
+            ctx.event("impl_coincident_streams")
         if records:
             ctx.nontrivial("impl", case.get("t"), case.get("vc"), case["s"])
         ctx.sample({"case": case, "bytes": len(data), "frames": dec.frame_kinds[:12], "records": workload.describe(records, 2)}, kind="impl")
@@ -255,6 +277,8 @@ def execute(ctx, case):
         return
     compare(ctx, expected, [observe.obs(r) for r in got], "read of reference-encoded stream (%s)" % variant["name"])
     ctx.event("ref_streams")
+    if case.get("co"):
+        ctx.event("ref_coincident_streams")
     ctx.event("ref_variant:" + variant["name"])
     if focus:
         ctx.cell("ref", focus[0], focus[1])
